@@ -196,6 +196,7 @@ theorem genLiteral_shape {c : Const} {a : HlslAst.Expr} (h : GenHlsl.genLiteral 
       cases k <;> cases hm : GenHlsl.negMagnitude false c <;> simp [hm] at h
       exact Or.inr ⟨_, h.symm⟩
     | panics => simp at h
+    | errs e => simp at h
     | enumLookup => simp at h
 
 theorem genArgs_cons_ne_nil (cx : Ctx) (e : Ir.Expr) (r : Ir.Exprs) : genArgs cx (.cons e r) ≠ .ok .nil := by
